@@ -103,8 +103,15 @@ def execute(scn: dict) -> dict:
     for rec in backend.TAP_LOG:
         s = rec["samples"]
         method = rec["method"]
-        mask = np.ones(nv, bool) if rec["mask"] is None else np.asarray(rec["mask"], bool)
+        given = np.ones(nv, bool) if rec["mask"] is None else np.asarray(rec["mask"], bool)
+        # the variables this sampler handles, from the raw configuration: free and assigned to it
+        mask = model.mask_of(cfg) & (np.ones(nv, bool) if assign is None else (np.asarray(assign) == rec["index"]))
         where = f"sampler {rec['index']} ({method}, shared={rec['shared']}) call {rec['call']}"
+        if not np.array_equal(given, mask):
+            viol.append({"clause": "sampler-given-wrong-variables", "sig": {},
+                         "detail": f"{where}: handles variables {np.where(given)[0].tolist()}, configuration says {np.where(mask)[0].tolist()} "
+                                   f"(mask {cfg['variables'].get('mask')}, assignment {assign})"})
+            continue
         checked += 1
         probe("calls_checked")
         if rec["call"] > 0:
